@@ -67,13 +67,25 @@ func (s *sites) byName(n string) *site {
 }
 
 type pLogs struct {
-	s  *sites
-	mu sync.Mutex
-	n  int
+	s      *sites
+	mu     sync.Mutex
+	n      int
+	delay  time.Duration // virtual time one call takes (it returns at once when its context is cancelled)
+	inCall atomic.Int32
 }
 
-func (f *pLogs) GetLatestPayloads(context.Context) ([]common.UpkeepPayload, error) {
+func (f *pLogs) GetLatestPayloads(ctx context.Context) ([]common.UpkeepPayload, error) {
 	f.s.logs.hit("LogEventProvider.GetLatestPayloads")
+	if f.delay > 0 {
+		f.inCall.Add(1)
+		select {
+		case <-time.After(f.delay):
+			f.inCall.Add(-1)
+		case <-ctx.Done():
+			f.inCall.Add(-1)
+			return nil, ctx.Err()
+		}
+	}
 	// one fresh log payload per call keeps the pipeline and the post-processors busy
 	f.mu.Lock()
 	f.n++
@@ -184,13 +196,17 @@ type node18 struct {
 	S      *sites
 	Blocks *pBlocks
 	Run    *pRunnable
+	Logs   *pLogs
 }
 
-func newNode18(t *testing.T, runDelay time.Duration) *node18 {
+func newNode18(t *testing.T, runDelay time.Duration, provDelay ...time.Duration) *node18 {
 	s := &sites{}
-	nd := &node18{S: s, Blocks: &pBlocks{}, Run: &pRunnable{s: s, delay: runDelay}}
+	nd := &node18{S: s, Blocks: &pBlocks{}, Run: &pRunnable{s: s, delay: runDelay}, Logs: &pLogs{s: s}}
+	if len(provDelay) > 0 {
+		nd.Logs.delay = provDelay[0]
+	}
 	fac := plugin.NewReportingPluginFactory(
-		&pLogs{s: s}, &pEvents{s}, nd.Blocks, &pRecov{s}, &pBuilder{s}, &pGetter{s}, nd.Run,
+		nd.Logs, &pEvents{s}, nd.Blocks, &pRecov{s}, &pBuilder{s}, &pGetter{s}, nd.Run,
 		runner.RunnerConfig{Workers: 4, WorkerQueueLength: 100, CacheExpire: 20 * 60e9, CacheClean: 30e9},
 		&RecEncoder{}, simutil.GetUpkeepType, simutil.UpkeepWorkID, &pUpdater{s}, log.New(io.Discard, "", 0),
 	)
